@@ -73,6 +73,7 @@ type Endpoint struct {
 	Cap        int    // capacity of rq (<0: unbounded)
 	StalledIn  bool   // nothing can be written towards this endpoint (peer writes park)
 	closed     bool
+	ClosedAt   int // director step of the local close
 	peerClosed bool
 	failed     error
 
@@ -441,6 +442,7 @@ func (e *Endpoint) doClose() {
 		return
 	}
 	e.closed = true
+	e.ClosedAt = e.N.D.Step
 	e.Peer.peerClosed = true
 	e.wakeAll()
 }
